@@ -46,6 +46,9 @@ def entry_slots(name):
 
 
 def exc_class(e):
+    import lib
+    if isinstance(e, lib.Hang):
+        return 'HANG'
     if isinstance(e, OSError):
         if e.errno == errno.ENOSPC:
             return 'ENOSPC'
@@ -155,10 +158,11 @@ def apply_model(t, op):
 
 def apply_impl(fs, op):
     """runs the operation on the real file-system; returns outcome class"""
-    p = fs.root / op['path'].lstrip('/')
+    import lib
     k = op['op']
     try:
-        with warnings.catch_warnings():
+        p = fs.root / op['path'].lstrip('/')
+        with lib.time_limit(20, str(op.get('op'))), warnings.catch_warnings():
             warnings.simplefilter('ignore')
             if k == 'write':
                 if op.get('via') == 'open':
